@@ -699,12 +699,21 @@ def _modifier_to_expr(parsed_pattern) -> str:
             )
         elif cond.operator == 'month':
             conditions.append(f"month == {cond.month}")
-        elif cond.operator == 'relative':
-            # Relative dates can't be easily converted - use approximation
-            # Note: This isn't perfect, but it's a reasonable migration
-            conditions.append(f"# Note: was last{cond.relative_days}days")
+        # 'relative' ([date:lastNdays]) has no equivalent in the expression language; it is
+        # reported by _dropped_modifier_notes() and must not end up inside the expression,
+        # where a "# Note" operand made the whole generated file unloadable
 
     return " and ".join(conditions)
+
+
+def _dropped_modifier_notes(parsed_pattern) -> List[str]:
+    """Comment lines for CSV modifiers that cannot be expressed in a .rules match expression."""
+    from tally.modifier_parser import ParsedPattern
+
+    if not isinstance(parsed_pattern, ParsedPattern):
+        return []
+    return [f"# Note: was last{cond.relative_days}days"
+            for cond in parsed_pattern.date_conditions if cond.operator == 'relative']
 
 
 def csv_rule_to_merchant_rule(
@@ -842,7 +851,7 @@ def csv_to_merchants_content(csv_rules: List[Tuple]) -> str:
             parts.append(_regex_call(pattern))
 
         modifier_expr = _modifier_to_expr(parsed) if parsed else ""
-        if modifier_expr and not modifier_expr.startswith("#"):
+        if modifier_expr:
             parts.append(modifier_expr)
 
         match_expr = " and ".join(parts) if parts else "true"
@@ -856,6 +865,7 @@ def csv_to_merchants_content(csv_rules: List[Tuple]) -> str:
             continue
 
         # Write rule block
+        lines.extend(_dropped_modifier_notes(parsed))
         lines.append(f"[{merchant}]")
         lines.append(f"match: {match_expr}")
         lines.append(f"category: {category}")
